@@ -324,35 +324,18 @@ func (g *gen) inject(pos token.Pos, name string, sig *types.Signature, set *Prov
 			return notePosition(g.pkg.Fset.Position(pos), fmt.Errorf("inject %s: %v", name, e))
 		})
 	}
+	if errs := verifyInjectable(g.pkg.Fset, pos, name, calls, injectSig, g.pkg.PkgPath); len(errs) > 0 {
+		return errs
+	}
 	type pendingVar struct {
 		name     string
 		expr     ast.Expr
 		typeInfo *types.Info
 	}
 	var pendingVars []pendingVar
-	ec := new(errorCollector)
 	for i := range calls {
 		c := &calls[i]
-		if c.hasCleanup && !injectSig.cleanup {
-			ts := types.TypeString(c.out, nil)
-			ec.add(notePosition(
-				g.pkg.Fset.Position(pos),
-				fmt.Errorf("inject %s: provider for %s returns cleanup but injection does not return cleanup function", name, ts)))
-		}
-		if c.hasErr && !injectSig.err {
-			ts := types.TypeString(c.out, nil)
-			ec.add(notePosition(
-				g.pkg.Fset.Position(pos),
-				fmt.Errorf("inject %s: provider for %s returns error but injection not allowed to fail", name, ts)))
-		}
 		if c.kind == valueExpr {
-			if err := accessibleFrom(c.valueTypeInfo, c.valueExpr, g.pkg.PkgPath); err != nil {
-				// TODO(light): Display line number of value expression.
-				ts := types.TypeString(c.out, nil)
-				ec.add(notePosition(
-					g.pkg.Fset.Position(pos),
-					fmt.Errorf("inject %s: value %s can't be used: %v", name, ts, err)))
-			}
 			if g.values[c.valueExpr] == "" {
 				t := c.valueTypeInfo.TypeOf(c.valueExpr)
 
@@ -365,9 +348,6 @@ func (g *gen) inject(pos token.Pos, name string, sig *types.Signature, set *Prov
 				})
 			}
 		}
-	}
-	if len(ec.errors) > 0 {
-		return ec.errors
 	}
 
 	// Perform one pass to collect all imports, followed by the real pass.
@@ -391,6 +371,39 @@ func (g *gen) inject(pos token.Pos, name string, sig *types.Signature, set *Prov
 		g.p(")\n\n")
 	}
 	return nil
+}
+
+// verifyInjectable reports what prevents the planned calls from being emitted
+// as an injector with signature injectSig in the package pkgPath: providers
+// returning a cleanup or an error the injector cannot return, and value
+// expressions the package cannot refer to.
+func verifyInjectable(fset *token.FileSet, pos token.Pos, name string, calls []call, injectSig outputSignature, pkgPath string) []error {
+	ec := new(errorCollector)
+	for i := range calls {
+		c := &calls[i]
+		if c.hasCleanup && !injectSig.cleanup {
+			ts := types.TypeString(c.out, nil)
+			ec.add(notePosition(
+				fset.Position(pos),
+				fmt.Errorf("inject %s: provider for %s returns cleanup but injection does not return cleanup function", name, ts)))
+		}
+		if c.hasErr && !injectSig.err {
+			ts := types.TypeString(c.out, nil)
+			ec.add(notePosition(
+				fset.Position(pos),
+				fmt.Errorf("inject %s: provider for %s returns error but injection not allowed to fail", name, ts)))
+		}
+		if c.kind == valueExpr {
+			if err := accessibleFrom(c.valueTypeInfo, c.valueExpr, pkgPath); err != nil {
+				// TODO(light): Display line number of value expression.
+				ts := types.TypeString(c.out, nil)
+				ec.add(notePosition(
+					fset.Position(pos),
+					fmt.Errorf("inject %s: value %s can't be used: %v", name, ts, err)))
+			}
+		}
+	}
+	return ec.errors
 }
 
 // rewritePkgRefs rewrites any package references in an AST into references for the
